@@ -347,7 +347,7 @@ func (c *Ctx) Finish() int {
 		sigs = append(sigs, s)
 	}
 	sort.Strings(sigs)
-	var fired []string
+	fired := []string{}
 	nviol := 0
 	replayDir := filepath.Join(Root, "replay", c.Prop)
 	for _, s := range sigs {
@@ -379,7 +379,7 @@ func (c *Ctx) Finish() int {
 	cov["evaluations"] = c.evals
 	cov["distinct_nontrivial"] = distinct
 	cov["rule"] = c.Rule
-	var samples []any
+	samples := []any{}
 	cats := make([]string, 0, len(c.samples))
 	for k := range c.samples {
 		cats = append(cats, k)
